@@ -116,6 +116,21 @@ PLANS["C04"] = {
     "must_exercise": ["layout.case", "layout.unsized"], "assumptions": CODEC_ASSUME, "exhaustive": True,
 }
 
+PLANS["C16"] = {
+    "technique": TECH,
+    "level_text": "spec/Portable.tla defines the portable scalars on little-endian digit sequences: stored image (byte order), comparison, add/sub/neg with overflow flag, zero/one/min/max and the range-checked conversions to and from u64/i64/usize; "
+                  "TLC checks round trip, be = reverse of le, totality/antisymmetry of the order, add/sub inverse, negation and min/max theorems on the enumerated values and prints one vector per state "
+                  "(all 16 types: boundary values, every Stride-th 16-bit value, boundary x boundary pairs, all 256 bytes for Bool). Each vector is replayed against flatty::portable; where TLC cannot compute the expectation "
+                  "(mul/div/rem, float ordering and arithmetic) the vector says NATIVE and the native operation on the same operands is the oracle, a native panic having to be mirrored.",
+    "level_note": "Trusted: TLC, spec/Portable.tla, harness/src/portable.rs, and for NATIVE entries the native Rust operators. Bounds: boundary sets for 32/64-bit types (not exhaustive), Stride for 16-bit types (1 in the thorough tier = all 65536 values), no from_str_radix / Display / serde.",
+    "quick": [{"type": "tlc-replay", "module": "MCPortable", "cfg": "MCPortable_quick.cfg"}],
+    "thorough": [{"type": "tlc-replay", "module": "MCPortable", "cfg": "MCPortable_thorough.cfg"}],
+    "rule": "one vector per distinct TLC state: (type, value) unary vectors, (type, a, b) binary vectors, constants, Bool bytes; non-trivial = all",
+    "must_exercise": ["pscalar.unary.int", "pscalar.unary.float", "pscalar.binary.int", "pscalar.binary.float", "pscalar.consts.*", "pscalar.bool.bool"],
+    "assumptions": ["host x86-64 little-endian; build profile with overflow checks on (a native overflow panics and must be mirrored)"],
+    "exhaustive": True,
+}
+
 # ---- IO ------------------------------------------------------------------------------------------------
 IO_BASE = """CONSTANTS
   NV = 2
